@@ -1,4 +1,5 @@
 import CobraModel.Model.Core
+import CobraModel.Model.LP
 /-!
 # The auxiliary problems the analyses of `cobra.flux_analysis` / `cobra.medium` hand to the solver
 
@@ -354,6 +355,40 @@ def extraRow (name : String) (lb ub : EB) (co : List (Nat × Rat)) : Row := ⟨n
 
 /-- the flux-balance problem with user constraints over fluxes appended -/
 def Net.fbaWith (n : Net) (extra : List Row) : Prob := { n.fba with rows := n.fba.rows ++ extra }
+
+/-! ### the dense form the certificate checker works on -/
+
+/-- a pair of extended bounds as an optional-bounds box (`-inf` below / `inf` above = no bound) -/
+def toBnd (lb ub : EB) : LPM.Bnd :=
+  ⟨match lb with | .fin q => some q | _ => none, match ub with | .fin q => some q | _ => none⟩
+
+/-- a lower bound of `+inf` or an upper bound of `-inf` has no dense counterpart -/
+def bndOK (lb ub : EB) : Bool := !(lb == .pinf) && !(ub == .ninf)
+
+/-- the problem as a dense maximisation problem over its variables in order (a minimisation problem with the objective negated) -/
+def Prob.toDense (p : Prob) : LPM.LP :=
+  { n := p.vars.length,
+    vb := p.vars.map (fun w => toBnd w.lb w.ub),
+    rows := p.rows.map (fun r => (p.dense r.co, toBnd r.lb r.ub)),
+    obj := (p.dense p.obj).map (fun c => if p.dirMax then c else -c) }
+
+/-- side conditions of the dense form, decidable: variables pairwise distinct and continuous, rows and objective mention only variables of the
+problem, no bound is `+inf` below or `-inf` above -/
+def Prob.closedB (p : Prob) : Bool :=
+  decide (p.vars.map (·.v)).Nodup &&
+  p.rows.all (fun r => r.co.all (fun q => (p.vars.map (·.v)).contains q.1) && bndOK r.lb r.ub) &&
+  p.obj.all (fun q => (p.vars.map (·.v)).contains q.1) &&
+  p.vars.all (fun w => w.kind == .cont && bndOK w.lb w.ub)
+
+/-- the assignment that gives the `k`-th variable the `k`-th value -/
+def assignOf (vs : List V) (xs : List Rat) (w : V) : Rat :=
+  match vs, xs with
+  | v :: vs', x :: xs' => if w = v then x else assignOf vs' xs' w
+  | _, _ => 0
+
+/-- the certificate check on the problem a builder produces -/
+def Prob.certOpt (p : Prob) (xs ys : List Rat) : Bool := p.closedB && p.toDense.checkOpt xs ys
+def Prob.certInfeas (p : Prob) (ys : List Rat) : Bool := p.closedB && p.toDense.checkInfeas ys
 
 /-- the name the solver sees (`old`: the name the analysis gives its old-objective variable) -/
 def Net.vname (n : Net) (old : String) : V → String
